@@ -35,7 +35,7 @@ Record pin_obj := mkPin {
 }.
 
 Inductive event :=
-| Apdu (b : bytes) | Connect (ok : bool) | Close
+| Apdu (b : bytes) (r : resp) | Connect (ok : bool) | Close
 | PinFileWrite (b : bytes) (ok : bool).   (* commit_change: open(path,"wb") + write *)
 
 Record world := mkWorld {
@@ -108,10 +108,9 @@ Definition push (e : event) (w : world) : world := set_trace w (e :: trace w).
 (* _send_command(command, data): one APDU out, one script item in *)
 Definition send_command (cmd : N) (data : bytes) : M bytes :=
   fun w =>
-    let w1 := push (Apdu (CLA :: cmd :: data)) w in
-    match script w1 with
-    | [] => (Exn DongleTimeout, w1)
-    | r :: rest => (classify r, set_script w1 rest)
+    match script w with
+    | [] => (Exn DongleTimeout, push (Apdu (CLA :: cmd :: data) TimeoutR) w)
+    | r :: rest => (classify r, push (Apdu (CLA :: cmd :: data) r) (set_script w rest))
     end.
 
 (* HSM2Dongle.connect: getDongle raising CommException -> HSM2DongleCommError *)
@@ -153,7 +152,7 @@ Definition exn_isa (e : exn) (c : N) : bool :=
 Definition exn_matches (e : exn) (cs : list N) : bool := existsb (exn_isa e) cs.
 
 Definition apdus (w : world) : list bytes :=
-  fold_left (fun acc ev => match ev with Apdu b => b :: acc | _ => acc end) (trace w) [].
+  fold_left (fun acc ev => match ev with Apdu b _ => b :: acc | _ => acc end) (trace w) [].
 
 Definition world0 (sc : list resp) (cn : list bool) : world :=
   mkWorld sc cn true [] false None [] [].
